@@ -742,6 +742,13 @@ func (ra *replyAnalysis) summary(fn *ssa.Function) *replySummary {
 	// parameter is captured (its spill slot)
 	wAddrs := writerSlots(fn, w)
 	isW := func(v ssa.Value) bool {
+		// the writer kept in a field of an object the handler made for the request (run := &fooRun{w: w, ...}; run.w): in a
+		// handler and the steps it is split into there is one response writer, whatever it is read from
+		if ld, ok := v.(*ssa.UnOp); ok && ld.Op == token.MUL {
+			if _, isField := ld.X.(*ssa.FieldAddr); isField && types.TypeString(ld.Type(), nil) == "net/http.ResponseWriter" {
+				return true
+			}
+		}
 		for i := 0; i < 4; i++ {
 			if v == w && w != nil {
 				return true
@@ -770,192 +777,329 @@ func (ra *replyAnalysis) summary(fn *ssa.Function) *replySummary {
 	fc := a.Ctx(fn)
 	fc.ensureConds()
 	B := a.B
+	// Path-sensitive in a bounded way: the state at a block is a small set of alternatives, each with the condition of the
+	// paths it stands for. An alternative whose condition contradicts the edge it would take is dropped (the step that
+	// replied with an error set err; the later `if err == nil` blocks are not entered on that path), so the accumulate-
+	// then-return style is counted like the early-return style. Alternatives with equal counts are merged.
 	type st struct {
 		r       replyRange
 		pending map[ssa.Value]condCount
+		c       *bddNode
 	}
-	in := map[*ssa.BasicBlock]*st{}
+	in := map[*ssa.BasicBlock][]*st{}
 	sum := &replySummary{perExit: map[*ssa.Return]replyRange{}}
 	clone := func(s *st) *st {
-		o := &st{r: s.r, pending: map[ssa.Value]condCount{}}
+		o := &st{r: s.r, pending: map[ssa.Value]condCount{}, c: s.c}
 		for k, v := range s.pending {
 			o.pending[k] = v
 		}
 		return o
 	}
-	merge := func(dst **st, s *st) {
-		if *dst == nil {
-			*dst = clone(s)
-			return
+	samePending := func(x, y map[ssa.Value]condCount) bool {
+		if len(x) != len(y) {
+			return false
 		}
-		(*dst).r = joinRange((*dst).r, s.r)
-		for k, v := range s.pending {
-			(*dst).pending[k] = v
+		for k, v := range x {
+			if w, ok := y[k]; !ok || w != v {
+				return false
+			}
+		}
+		return true
+	}
+	addState := func(b *ssa.BasicBlock, s *st) {
+		for _, e := range in[b] {
+			if e.r == s.r && samePending(e.pending, s.pending) {
+				e.c = B.Or(e.c, s.c)
+				return
+			}
+		}
+		in[b] = append(in[b], s)
+		if len(in[b]) > 12 {
+			// too many alternatives: fall back to one joined state
+			j := clone(in[b][0])
+			for _, e := range in[b][1:] {
+				j.r = joinRange(j.r, e.r)
+				j.c = B.Or(j.c, e.c)
+				for k, v := range e.pending {
+					j.pending[k] = v
+				}
+			}
+			in[b] = []*st{j}
 		}
 	}
 	one, zero := replyRange{1, 1}, replyRange{0, 0}
 	splitNil, splitNon := map[*ssa.Return]replyRange{}, map[*ssa.Return]replyRange{}
 	splitErrNil, splitErrNon := map[*ssa.Return]replyRange{}, map[*ssa.Return]replyRange{}
-	alwaysNil := map[ssa.Value]bool{}
-	in[fn.Blocks[0]] = &st{pending: map[ssa.Value]condCount{}}
-	for _, b := range fc.rpo {
-		s := in[b]
-		if s == nil {
-			continue
+	kindNil, kindNon := map[*ssa.Return]*replyRange{}, map[*ssa.Return]*replyRange{}
+	kindErrNil, kindErrNon := map[*ssa.Return]*replyRange{}, map[*ssa.Return]*replyRange{}
+	joinInto := func(m map[*ssa.Return]replyRange, ret *ssa.Return, rr replyRange) {
+		if old, ok := m[ret]; ok {
+			m[ret] = joinRange(old, rr)
+		} else {
+			m[ret] = rr
 		}
-		cur := clone(s)
-		for _, ins := range b.Instrs {
-			c, ok := ins.(*ssa.Call)
-			if !ok {
+	}
+	joinKind := func(m map[*ssa.Return]*replyRange, ret *ssa.Return, rr replyRange) {
+		if old, ok := m[ret]; ok {
+			j := joinRange(*old, rr)
+			m[ret] = &j
+		} else {
+			c := rr
+			m[ret] = &c
+		}
+	}
+	alwaysNil := map[ssa.Value]bool{}
+	in[fn.Blocks[0]] = []*st{{pending: map[ssa.Value]condCount{}, c: B.True}}
+	// a conditional count whose condition the path has settled (the error it depends on was tested through a result
+	// variable, or the paths on which it is nil have been left)
+	settle := func(s *st) {
+		for k, pc := range s.pending {
+			name := "isnil(" + fc.AP(k) + ")"
+			if !B.HasVar(name) {
 				continue
 			}
-			cc := &c.Call
-			if isReplyCall(cc, isW) {
-				// a reply action that reports an error has not (completely) replied: it counts on its nil edge only
-				if ev := errResultValue(c); ev != nil && len(*ev.Referrers()) > 0 {
-					cur.pending[ev] = condCount{ifNil: one, ifNonNil: zero}
-				} else {
-					cur.r = cur.r.add(one)
+			if B.Implies(s.c, B.Var(name)) {
+				s.r = s.r.add(pc.ifNil)
+				delete(s.pending, k)
+			} else if B.Implies(s.c, B.Not(B.Var(name))) {
+				s.r = s.r.add(pc.ifNonNil)
+				delete(s.pending, k)
+			}
+		}
+	}
+	for _, b := range fc.rpo {
+		for _, s := range in[b] {
+			cur := clone(s)
+			for _, ins := range b.Instrs {
+				c, ok := ins.(*ssa.Call)
+				if !ok {
+					continue
 				}
-				continue
-			}
-			if sc := cc.StaticCallee(); sc != nil && len(sc.Blocks) > 0 && ra.p.InModule(sc) && sc.Signature.Results().Len() >= 1 {
-				if _, isPtr := sc.Signature.Results().At(0).Type().Underlying().(*types.Pointer); isPtr {
-					allNil := true
-					for _, rt := range returnsOf(sc) {
-						if !isNilConst(Resolve(rt.Results[0])) {
-							allNil = false
+				cc := &c.Call
+				if isReplyCall(cc, isW) {
+					// a reply action that reports an error has not (completely) replied: it counts on its nil edge only
+					if ev := errResultValue(c); ev != nil && len(*ev.Referrers()) > 0 {
+						cur.pending[ev] = condCount{ifNil: one, ifNonNil: zero}
+					} else {
+						cur.r = cur.r.add(one)
+					}
+					continue
+				}
+				if sc := cc.StaticCallee(); sc != nil && len(sc.Blocks) > 0 && ra.p.InModule(sc) && sc.Signature.Results().Len() >= 1 {
+					if _, isPtr := sc.Signature.Results().At(0).Type().Underlying().(*types.Pointer); isPtr {
+						allNil := true
+						for _, rt := range returnsOf(sc) {
+							if !isNilConst(Resolve(rt.Results[0])) {
+								allNil = false
+							}
+						}
+						if allNil {
+							alwaysNil[c] = true
 						}
 					}
-					if allNil {
-						alwaysNil[c] = true
+				}
+				passes := false
+				for _, ar := range cc.Args {
+					if isW(ar) {
+						passes = true
 					}
 				}
-			}
-			passes := false
-			for _, ar := range cc.Args {
-				if isW(ar) {
-					passes = true
+				if cc.IsInvoke() && isW(cc.Value) {
+					passes = false // Header() etc.
 				}
-			}
-			if cc.IsInvoke() && isW(cc.Value) {
-				passes = false // Header() etc.
-			}
-			if sc := cc.StaticCallee(); sc != nil && sc.Parent() != nil && len(writerSlots(sc, nil)) > 0 {
-				passes = true // a function literal that captured the writer
-			}
-			if !passes {
-				continue
-			}
-			var cs *replySummary
-			if cc.IsInvoke() {
-				if cc.Method.Name() == "GetSession" {
-					cs = &replySummary{all: replyRange{0, 1}, nilRes: &one, nonNil: &zero}
-				} else if cc.Method.Name() == "ServeHTTP" {
+				if sc := cc.StaticCallee(); sc != nil && sc.Parent() != nil && len(writerSlots(sc, nil)) > 0 {
+					passes = true // a function literal that captured the writer
+				}
+				if sc := cc.StaticCallee(); sc != nil && !passes && ra.p.InModule(sc) && carriesWriter(sc) {
+					passes = true // a step method of an object that holds the writer
+				}
+				if !passes {
+					continue
+				}
+				var cs *replySummary
+				if cc.IsInvoke() {
+					if cc.Method.Name() == "GetSession" {
+						cs = &replySummary{all: replyRange{0, 1}, nilRes: &one, nonNil: &zero}
+					} else if cc.Method.Name() == "ServeHTTP" {
+						cs = &replySummary{all: one}
+					}
+				} else if sc := cc.StaticCallee(); sc != nil {
+					if ra.p.InModule(sc) {
+						cs = ra.summary(sc)
+					} else {
+						continue
+					}
+				} else {
+					// call through a function value (hook such as OnError): contract = replies once
 					cs = &replySummary{all: one}
 				}
-			} else if sc := cc.StaticCallee(); sc != nil {
-				if ra.p.InModule(sc) {
-					cs = ra.summary(sc)
-				} else {
+				if cs == nil {
 					continue
 				}
-			} else {
-				// call through a function value (hook such as OnError): contract = replies once
-				cs = &replySummary{all: one}
-			}
-			if cs == nil {
-				continue
-			}
-			if cs.nilRes != nil && cs.nonNil != nil {
-				cur.pending[c] = condCount{ifNil: *cs.nilRes, ifNonNil: *cs.nonNil}
-				continue
-			}
-			// a callee whose pointer result is nil on every exit (or on none): an exit that forwards it is of that kind
-			if cs.nilRes != nil && cs.nonNil == nil {
-				alwaysNil[c] = true
-			}
-			if cs.errNil != nil && cs.errNonNil != nil {
-				if ev := errResultValue(c); ev != nil && len(*ev.Referrers()) > 0 {
-					cur.pending[ev] = condCount{ifNil: *cs.errNil, ifNonNil: *cs.errNonNil}
+				if cs.nilRes != nil && cs.nonNil != nil {
+					cur.pending[c] = condCount{ifNil: *cs.nilRes, ifNonNil: *cs.nonNil}
 					continue
 				}
+				// a callee whose pointer result is nil on every exit (or on none): an exit that forwards it is of that kind
+				if cs.nilRes != nil && cs.nonNil == nil {
+					alwaysNil[c] = true
+				}
+				if cs.errNil != nil && cs.errNonNil != nil {
+					if ev := errResultValue(c); ev != nil && len(*ev.Referrers()) > 0 {
+						cur.pending[ev] = condCount{ifNil: *cs.errNil, ifNonNil: *cs.errNonNil}
+						continue
+					}
+				}
+				cur.r = cur.r.add(cs.all)
 			}
-			cur.r = cur.r.add(cs.all)
-		}
-		// exits
-		if len(b.Instrs) > 0 {
-			if ret, ok := b.Instrs[len(b.Instrs)-1].(*ssa.Return); ok && b != fn.Recover {
-				rr := cur.r
-				// a pointer result forwarded from a callee whose reply count depends on whether it returned nil: this exit
-				// stands for two kinds of exit
-				var fwd ssa.Value
-				if len(ret.Results) >= 1 {
-					if rv := Resolve(ret.Results[0]); rv != nil {
-						if _, ok := cur.pending[rv]; ok {
-							if _, isPtr := rv.Type().Underlying().(*types.Pointer); isPtr {
-								fwd = rv
+			// exits
+			if len(b.Instrs) > 0 {
+				if ret, ok := b.Instrs[len(b.Instrs)-1].(*ssa.Return); ok && b != fn.Recover {
+					settle(cur)
+					// a count that still depends on an error or a result that the exit hands on through a result variable
+					// (err = step(); ...; return err): the exit is read once for each way that value can be
+					exits := []*st{cur}
+					if len(ret.Results) >= 1 {
+						direct := map[ssa.Value]bool{}
+						for _, rv := range ret.Results {
+							direct[Resolve(rv)] = true
+						}
+						for k, pc := range cur.pending {
+							if direct[k] {
+								continue // forwarded as it is: the two kinds of exit below
+							}
+							nn := fc.NonNil(k)
+							if nn == B.True || nn == B.False {
+								continue
+							}
+							var next []*st
+							for _, e := range exits {
+								if _, ok := e.pending[k]; !ok {
+									next = append(next, e)
+									continue
+								}
+								if c := B.And(e.c, B.Not(nn)); c != B.False {
+									n := clone(e)
+									n.c = c
+									n.r = n.r.add(pc.ifNil)
+									delete(n.pending, k)
+									next = append(next, n)
+								}
+								if c := B.And(e.c, nn); c != B.False {
+									n := clone(e)
+									n.c = c
+									n.r = n.r.add(pc.ifNonNil)
+									delete(n.pending, k)
+									next = append(next, n)
+								}
+							}
+							exits = next
+						}
+					}
+					for _, cur := range exits {
+						rr := cur.r
+						// a pointer result forwarded from a callee whose reply count depends on whether it returned nil: this exit
+						// stands for two kinds of exit
+						var fwd ssa.Value
+						if len(ret.Results) >= 1 {
+							if rv := Resolve(ret.Results[0]); rv != nil {
+								if _, ok := cur.pending[rv]; ok {
+									if _, isPtr := rv.Type().Underlying().(*types.Pointer); isPtr {
+										fwd = rv
+									}
+								}
+							}
+						}
+						// an error result forwarded from a reply action (or a callee) whose count depends on that error: likewise
+						var fwdErr ssa.Value
+						if ei := errIndex(fn); ei >= 0 && ei < len(ret.Results) && fwd == nil {
+							if ev := Resolve(ret.Results[ei]); ev != nil {
+								if _, ok := cur.pending[ev]; ok {
+									fwdErr = ev
+								}
+							}
+						}
+						for k, pc := range cur.pending {
+							if k == fwd || k == fwdErr {
+								continue
+							}
+							rr = rr.add(joinRange(pc.ifNil, pc.ifNonNil))
+						}
+						if fwdErr != nil {
+							pc := cur.pending[fwdErr]
+							joinInto(splitErrNil, ret, rr.add(pc.ifNil))
+							joinInto(splitErrNon, ret, rr.add(pc.ifNonNil))
+							rr = rr.add(joinRange(pc.ifNil, pc.ifNonNil))
+						}
+						if fwd != nil {
+							pc := cur.pending[fwd]
+							joinInto(splitNil, ret, rr.add(pc.ifNil))
+							joinInto(splitNon, ret, rr.add(pc.ifNonNil))
+							rr = rr.add(joinRange(pc.ifNil, pc.ifNonNil))
+						}
+						joinInto(sum.perExit, ret, rr)
+						// the kind of exit this alternative stands for, when a result variable is returned
+						if fwd == nil && len(ret.Results) >= 1 {
+							if _, isPtr := ret.Results[0].Type().Underlying().(*types.Pointer); isPtr {
+								rv := Resolve(ret.Results[0])
+								canNil, canNon := resultNilness(fc, cur.c, rv, alwaysNil, 0)
+								if canNil {
+									joinKind(kindNil, ret, rr)
+								}
+								if canNon {
+									joinKind(kindNon, ret, rr)
+								}
+							}
+						}
+						if ei := errIndex(fn); fwdErr == nil && ei >= 0 && ei < len(ret.Results) {
+							ev := Resolve(ret.Results[ei])
+							nn := fc.NonNil(ev)
+							switch {
+							case isNilConst(ev) || B.Implies(cur.c, B.Not(nn)):
+								joinKind(kindErrNil, ret, rr)
+							case nn == B.True || B.Implies(cur.c, nn):
+								joinKind(kindErrNon, ret, rr)
+							default:
+								joinKind(kindErrNil, ret, rr)
+								joinKind(kindErrNon, ret, rr)
 							}
 						}
 					}
 				}
-				// an error result forwarded from a reply action (or a callee) whose count depends on that error: likewise
-				var fwdErr ssa.Value
-				if ei := errIndex(fn); ei >= 0 && ei < len(ret.Results) && fwd == nil {
-					if ev := Resolve(ret.Results[ei]); ev != nil {
-						if _, ok := cur.pending[ev]; ok {
-							fwdErr = ev
+			}
+			for si, succ := range b.Succs {
+				if isBackEdge(b, succ) {
+					continue
+				}
+				ns := clone(cur)
+				if !fc.inLoop(b) && !fc.inLoop(succ) {
+					ns.c = B.And(cur.c, fc.edgeCond(b, succ))
+					if ns.c == B.False {
+						continue // this alternative does not take the edge
+					}
+				}
+				if iff, ok := b.Instrs[len(b.Instrs)-1].(*ssa.If); ok {
+					if bo, ok := iff.Cond.(*ssa.BinOp); ok && (bo.Op == token.EQL || bo.Op == token.NEQ) {
+						var pv ssa.Value
+						if isNilConst(bo.Y) {
+							pv = bo.X
+						} else if isNilConst(bo.X) {
+							pv = bo.Y
+						}
+						if pc, ok := ns.pending[pv]; ok && pv != nil {
+							isNilEdge := (bo.Op == token.EQL) == (si == 0)
+							if isNilEdge {
+								ns.r = ns.r.add(pc.ifNil)
+							} else {
+								ns.r = ns.r.add(pc.ifNonNil)
+							}
+							delete(ns.pending, pv)
 						}
 					}
 				}
-				for k, pc := range cur.pending {
-					if k == fwd || k == fwdErr {
-						continue
-					}
-					rr = rr.add(joinRange(pc.ifNil, pc.ifNonNil))
-				}
-				if fwdErr != nil {
-					pc := cur.pending[fwdErr]
-					splitErrNil[ret] = rr.add(pc.ifNil)
-					splitErrNon[ret] = rr.add(pc.ifNonNil)
-					rr = rr.add(joinRange(pc.ifNil, pc.ifNonNil))
-				}
-				if fwd != nil {
-					pc := cur.pending[fwd]
-					splitNil[ret] = rr.add(pc.ifNil)
-					splitNon[ret] = rr.add(pc.ifNonNil)
-					rr = rr.add(joinRange(pc.ifNil, pc.ifNonNil))
-				}
-				sum.perExit[ret] = rr
+				settle(ns)
+				addState(succ, ns)
 			}
-		}
-		for si, succ := range b.Succs {
-			if isBackEdge(b, succ) {
-				continue
-			}
-			ns := clone(cur)
-			if iff, ok := b.Instrs[len(b.Instrs)-1].(*ssa.If); ok {
-				if bo, ok := iff.Cond.(*ssa.BinOp); ok && (bo.Op == token.EQL || bo.Op == token.NEQ) {
-					var pv ssa.Value
-					if isNilConst(bo.Y) {
-						pv = bo.X
-					} else if isNilConst(bo.X) {
-						pv = bo.Y
-					}
-					if pc, ok := ns.pending[pv]; ok && pv != nil {
-						isNilEdge := (bo.Op == token.EQL) == (si == 0)
-						if isNilEdge {
-							ns.r = ns.r.add(pc.ifNil)
-						} else {
-							ns.r = ns.r.add(pc.ifNonNil)
-						}
-						delete(ns.pending, pv)
-					}
-				}
-			}
-			d := in[succ]
-			merge(&d, ns)
-			in[succ] = d
 		}
 	}
 	first := true
@@ -967,33 +1111,38 @@ func (ra *replyAnalysis) summary(fn *ssa.Function) *replySummary {
 		} else {
 			sum.all = joinRange(sum.all, rr)
 		}
-		if len(ret.Results) >= 1 {
-			if _, isPtr := ret.Results[0].Type().Underlying().(*types.Pointer); isPtr {
-				if sn, ok := splitNil[ret]; ok {
-					joinPtr(&sum.nilRes, sn)
-					joinPtr(&sum.nonNil, splitNon[ret])
-				} else if rv := Resolve(ret.Results[0]); isNilConst(rv) || alwaysNil[rv] {
-					joinPtr(&sum.nilRes, rr)
-				} else {
-					joinPtr(&sum.nonNil, rr)
-				}
-			}
+		if sn, ok := splitNil[ret]; ok {
+			joinPtr(&sum.nilRes, sn)
+			joinPtr(&sum.nonNil, splitNon[ret])
+		}
+		if k := kindNil[ret]; k != nil {
+			joinPtr(&sum.nilRes, *k)
+		}
+		if k := kindNon[ret]; k != nil {
+			joinPtr(&sum.nonNil, *k)
 		}
 		if sn, ok := splitErrNil[ret]; ok {
 			joinPtr(&sum.errNil, sn)
 			joinPtr(&sum.errNonNil, splitErrNon[ret])
-		} else if ei >= 0 && ei < len(ret.Results) {
-			ev := Resolve(ret.Results[ei])
-			nn := fc.NonNil(ev)
-			switch {
-			case isNilConst(ev) || B.Implies(fc.Cond(ret.Block()), B.Not(nn)):
-				joinPtr(&sum.errNil, rr)
-			case nn == B.True || B.Implies(fc.Cond(ret.Block()), nn):
-				joinPtr(&sum.errNonNil, rr)
-			default:
-				joinPtr(&sum.errNil, rr)
-				joinPtr(&sum.errNonNil, rr)
+		}
+		if k := kindErrNil[ret]; k != nil {
+			joinPtr(&sum.errNil, *k)
+		}
+		if k := kindErrNon[ret]; k != nil {
+			joinPtr(&sum.errNonNil, *k)
+		}
+		_ = ei
+	}
+	if os.Getenv("SAMLVERIF_DEBUG") != "" {
+		d := func(x *replyRange) string {
+			if x == nil {
+				return "-"
 			}
+			return fmt.Sprintf("%d..%d", x.min, x.max)
+		}
+		fmt.Printf("DEBUG reply %s all=%d..%d nil=%s non=%s errNil=%s errNon=%s\n", ra.p.FnName(fn), sum.all.min, sum.all.max, d(sum.nilRes), d(sum.nonNil), d(sum.errNil), d(sum.errNonNil))
+		for ret, rr := range sum.perExit {
+			fmt.Printf("DEBUG   exit %s %d..%d kindNil=%s kindNon=%s\n", ra.p.InstrPos(ret), rr.min, rr.max, d(kindNil[ret]), d(kindNon[ret]))
 		}
 	}
 	ra.memo[fn] = sum
@@ -2058,4 +2207,53 @@ func keyDatumTransformed(v ssa.Value) string {
 		return "" // fresh randomness, a clock: not a function of a name
 	}
 	return "the result of " + sc.String()
+}
+
+// resultNilness: whether the pointer result v can be nil / can be non-nil on the paths that condition c stands for. A
+// result variable (phi) is read alternative by alternative, keeping those whose edge is compatible with c; a value that
+// is not known to be nil counts as non-nil (a session), as a directly returned value always did.
+func resultNilness(fc *FuncCtx, c *bddNode, v ssa.Value, alwaysNil map[ssa.Value]bool, depth int) (canNil, canNon bool) {
+	B := fc.A.B
+	if isNilConst(v) || alwaysNil[v] {
+		return true, false
+	}
+	if ph, ok := v.(*ssa.Phi); ok && depth < 6 {
+		for i, e := range ph.Edges {
+			pred := ph.Block().Preds[i]
+			under := B.And(c, B.And(fc.Cond(pred), fc.edgeCond(pred, ph.Block())))
+			if under == B.False {
+				continue
+			}
+			n1, n2 := resultNilness(fc, under, Resolve(e), alwaysNil, depth+1)
+			canNil = canNil || n1
+			canNon = canNon || n2
+		}
+		return canNil, canNon
+	}
+	nn := fc.NonNil(v)
+	if B.Implies(c, B.Not(nn)) {
+		return true, false
+	}
+	return false, true
+}
+
+// carriesWriter: fn takes (as receiver or parameter) a pointer to a module struct one of whose fields is an
+// http.ResponseWriter.
+func carriesWriter(fn *ssa.Function) bool {
+	for _, prm := range fn.Params {
+		pt, ok := prm.Type().Underlying().(*types.Pointer)
+		if !ok {
+			continue
+		}
+		st, ok := pt.Elem().Underlying().(*types.Struct)
+		if !ok {
+			continue
+		}
+		for i := 0; i < st.NumFields(); i++ {
+			if types.TypeString(st.Field(i).Type(), nil) == "net/http.ResponseWriter" {
+				return true
+			}
+		}
+	}
+	return false
 }
